@@ -89,6 +89,15 @@ impl Element {
     #[verifier::external_body]
     pub fn clone(&self) -> (r: Element) ensures r == *self { unimplemented!() }
 }
+// the node behind a handle (what `self.0.read()` shows); the file version(s) of the element (walks up to the files: leaf, no contract)
+pub uninterp spec fn node_of(e: Element) -> ElementRaw;
+impl Element {
+    #[verifier::external_body]
+    pub fn vx_node(&self) -> (r: ElementRaw) ensures r == node_of(*self) { unimplemented!() }
+    #[verifier::external_body]
+    pub fn min_version(&self) -> (r: Result<AutosarVersion, AutosarDataError>) { unimplemented!() }
+}
+pub struct ValidSubElementInfo { pub element_name: ElementName, pub is_named: bool, pub is_allowed: bool }
 // `ElementRaw { parent, elemname, elemtype, content: smallvec![], .. }.wrap()`: a fresh, empty child of the given name and type
 #[verifier::external_body]
 pub fn vx_new_element(parent: WeakElement, elemname: ElementName, elemtype: ElementType) -> (r: Element)
@@ -257,6 +266,40 @@ pub proof fn lemma_calc_unique(s: &ElementRaw, name: ElementName, v: u32, a: usi
     }
 }
 
+// a refusal and a range exclude each other (so `calc(..).is_ok()` decides "some position is allowed")
+pub proof fn lemma_calc_exclusive(s: &ElementRaw, name: ElementName, v: u32, a: usize, b: usize, e: AutosarDataError)
+    requires s.calc_post(name, v, Ok((a, b))), s.calc_post(name, v, Err(e))
+    ensures false
+{
+    let mode = t_dt(s.t()).mode;
+    if mode != ContentMode::Characters {
+        match find_from(s.t(), 0, name, v) {
+            Some((_, n)) => {
+                if !(mode == ContentMode::Bag || mode == ContentMode::Mixed) {
+                    let i = choose|i: int| 0 <= i < s.content@.len() && #[trigger] s.conflict(n, i, v) && (forall|j: int| 0 <= j < i ==> !#[trigger] s.after(n, j, v));
+                    if i < b { assert(!s.conflict(n, i, v)); }
+                    else {
+                        assert(s.after(n, b as int, v));
+                        if (b as int) < i { assert(!s.after(n, b as int, v)); }
+                        else { lemma_lex_eq(n, n); assert(s.kmode(n, i, v) == Some(ContentMode::Sequence)); }
+                    }
+                }
+            }
+            None => {}
+        }
+    }
+}
+// one entry of list_valid_sub_elements: the name is listed for the version, and is_allowed says whether some position is allowed now
+pub open spec fn entry_ok(x: ValidSubElementInfo, n: ElementRaw, v: u32) -> bool {
+    &&& exists|p: Seq<usize>| (#[trigger] resolve(n.t(), p)) matches Some((d, m)) && t_el(d as int).name == x.element_name && m & v != 0
+            && x.is_named == (sn_mask(t_el(d as int).elemtype as int) matches Some(sm) && sm & v != 0)
+    &&& x.is_allowed <==> exists|a: usize, b: usize| n.calc_post(x.element_name, v, Ok((a, b)))
+}
+
+pub open spec fn list_ok(r: Seq<ValidSubElementInfo>, n: ElementRaw, ver: AutosarVersion) -> bool {
+    forall|i: int| 0 <= i < r.len() ==> entry_ok(#[trigger] r[i], n, ver as u32)
+}
+
 // C07: "that range is exactly the set of positions that keep the sub-elements in specification order"
 pub proof fn lemma_range_is_exact(s: &ElementRaw, n: Seq<usize>, v: u32, a: usize, b: usize, p: int)
     requires s.all_in_sequence(n, v), s.in_order(v), s.range_post(n, v, Ok((a, b))), 0 <= p <= s.content@.len()
@@ -316,7 +359,16 @@ R39 = [
     (r'let other_elemname = \{\s*(?://[^\n]*\n\s*)*let other_element = other\.0\.read\(\);\s*other_element\.elemname\s*\};', lambda m: 'let other_elemname = other.element_name();', 'R39'),
 ]
 
-LEAVES = ['is_named_in_version', 'find_sub_element', 'find_common_group', 'ElementType.content_mode', 'GroupType.content_mode', 'get_sub_element_multiplicity']
+F_E = 'autosar-data/src/element.rs'
+IMPL_E = r'impl Element'
+R46 = [
+    (r'self\.0\.read\(\)\.elemtype', lambda m: 'self.vx_node().elemtype', 'R46'),
+    (r'let is_allowed = self\.0\.read\(\)\.calc_element_insert_range\(element_name, version\)\.is_ok\(\);', lambda m: 'let vx_calc = self.vx_node().calc_element_insert_range(element_name, version); let is_allowed = vx_calc.is_ok();', 'R46'),
+    (r'for \(element_name, _, version_mask, named_mask\) in etype\.sub_element_spec_iter\(\) \{',
+     lambda m: 'let mut vx_it = etype.sub_element_spec_iter(); loop { let (element_name, vx_et, version_mask, named_mask) = match vx_it.next() { Some(vx_x) => vx_x, None => { break; } };', 'R44'),
+]
+
+LEAVES = ['sub_element_spec_iter', 'SubelemDefinitionsIter.next', 'compatible', 'is_named_in_version', 'find_sub_element', 'find_common_group', 'ElementType.content_mode', 'GroupType.content_mode', 'get_sub_element_multiplicity']
 
 V = 'version as u32'
 UNIQ = '''proof {
@@ -424,9 +476,38 @@ pub struct AutosarModel { pub opaque: u64 }
                   ensures=['(r is Err && *final(self) == *old(self)) || exists|a: usize, b: usize| old(self).calc_post(name_of(*other), %s, Ok((a, b))) && a <= position <= b && copied_inner_post(*old(self), *final(self), *other, position, %s, r)' % (V, V),
                            'forall|a: usize, b: usize| old(self).calc_post(name_of(*other), %s, Ok((a, b))) && !(a <= position <= b) ==> r is Err && *final(self) == *old(self)' % V],
                   proofs=[dict(after=r'let \(start_pos, end_pos\) = self\.calc_element_insert_range\(other_elemname, version\)\?;', text=UNIQ % ('other_elemname', 'other_elemname'))]),
+           FnSpec('list_valid_sub_elements', F_E, impl=IMPL_E, ret='r', body_sub=R46, requires=['node_of(*self).elemtype.typ < n_dt()'],
+                  ensures=['r@.len() == 0 || exists|ver: AutosarVersion| #[trigger] list_ok(r@, node_of(*self), ver)'],
+                  loops={0: dict(invariant=['wf_tables()', 'it_inv(vx_it.type_id_stack@, vx_it.indices@)', 'etype == node_of(*self).elemtype', 'etype.typ < n_dt()',
+                                            'vx_it.type_id_stack@.len() > 0 ==> vx_it.type_id_stack@[0] == etype.typ',
+                                            'list_ok(valid_sub_elements@, node_of(*self), version)'],
+                                 decreases='it_measure(vx_it.type_id_stack@, vx_it.indices@)')},
+                  proofs=[dict(at='body_start', text='proof { axiom_tables(); }'),
+                          dict(before=r'^\s*valid_sub_elements\.push\(ValidSubElementInfo \{', text='''let ghost old_list = valid_sub_elements@;'''),
+                          dict(after=r'is_allowed,\s*\n\s*\}\);', text='''proof {
+    let n = node_of(*self); let v = version as u32;
+    let x = valid_sub_elements@[valid_sub_elements@.len() - 1];
+    assert(version_mask & v == v & version_mask) by(bit_vector);
+    assert(named_mask & v == v & named_mask) by(bit_vector);
+    assert(0u32 & v == 0) by(bit_vector);
+    assert(x.element_name == element_name && x.is_allowed == is_allowed && x.is_named == is_named);
+    let p = choose|p: Seq<usize>| resolve(etype.typ as int, p) == Some((vx_et.def, version_mask));
+    assert(resolve(n.t(), p) matches Some((d, m)) && t_el(d as int).name == x.element_name && m & v != 0
+        && x.is_named == (sn_mask(t_el(d as int).elemtype as int) matches Some(sm) && sm & v != 0));
+    match vx_calc {
+        Ok((a, b)) => { assert(n.calc_post(element_name, v, Ok((a, b)))); }
+        Err(e) => {
+            assert forall|a: usize, b: usize| n.calc_post(element_name, v, Ok((a, b))) implies false by { lemma_calc_exclusive(&n, element_name, v, a, b, e); }
+        }
+    }
+    assert(entry_ok(x, n, v));
+    assert forall|i: int| 0 <= i < valid_sub_elements@.len() implies entry_ok(#[trigger] valid_sub_elements@[i], n, v) by {
+        if i < valid_sub_elements@.len() - 1 { assert(valid_sub_elements@[i] == old_list[i]); }
+    }
+}''')]),
            ]
     u = Unit(name='insertrange', prop='C07', spec=spec, fns=fns,
-             wrap={IMPL_R: 'impl ElementRaw', lookups.IMPL_ET: 'impl ElementType', lookups.IMPL_GT: 'impl GroupType'},
+             wrap={IMPL_R: 'impl ElementRaw', IMPL_E: 'impl Element', lookups.IMPL_ET: 'impl ElementType', lookups.IMPL_GT: 'impl GroupType', lookups.IMPL_AV: 'impl AutosarVersion', lookups.IMPL_SI: 'impl SubelemDefinitionsIter'},
              dropped=['the element graph: ElementRaw is {elemname, elemtype, content: Vec<ElementContent>} (the fields these functions read; SmallVec -> Vec), a child Element is an opaque handle with uninterpreted name_of/type_of (the real accessors take the child lock); error payloads opaque (R39)',
                       'specification lookups are leaves with the contracts proved in unit lookups (find_sub_element == the spec function find_from); table contents uninterpreted (wf_tables, wf_modes discharged by native ground checks)',
                       '`ElementRaw { .. }.wrap()` (Arc/RwLock allocation) is the leaf vx_new_element'])
